@@ -6,7 +6,7 @@ CONSTANTS
     CtrSrc <- MCCtrSrc
     HostDst <- MCHostDst
     CtrDst <- MCCtrDst
-    Envs <- AllEnvs
+    Envs <- OneEnv
     Names = {"x1", "x2"}
     MaxOps = 2
 SPECIFICATION Spec
